@@ -228,3 +228,57 @@ def run_with_preemption(fn_a, fn_b, k, files, funcs=None, locks=()):
     tb.join(60)
     return (res.get('a', ('exc', 'thread A did not finish')), res.get('b', ('exc', 'thread B did not finish')),
             state['n'])
+
+
+def run_overlapped(fn_a, fn_b, ka, kb, files, patience=4.0):
+    """Two-preemption schedule in which call B is still in progress when call A RETURNS: A runs up to its ka-th
+    traced line and is paused; B starts and runs up to its kb-th traced line and is paused; A resumes and runs to
+    completion; B resumes. (Should A block on a lock held by the paused B, B is resumed after `patience` seconds:
+    that is the schedule the lock then dictates.) ka / kb = None: count lines only, no pause.
+    Returns (result_a, result_b, lines_a, lines_b)."""
+    files = set(files)
+    n = {'a': 0, 'b': 0}
+    reached = {'a': threading.Event(), 'b': threading.Event()}
+    resume = {'a': threading.Event(), 'b': threading.Event()}
+    res = {}
+
+    def tracer(who, k):
+        def local(frame, event, arg):
+            if event == 'line':
+                n[who] += 1
+                if k is not None and n[who] == k:
+                    reached[who].set()
+                    resume[who].wait(60)
+            return local
+
+        def glob(frame, event, arg):
+            if event == 'call' and frame.f_code.co_filename in files:
+                return local
+            return None
+        return glob
+
+    def body(who, fn, k):
+        def run():
+            sys.settrace(tracer(who, k))
+            try:
+                res[who] = ('ok', fn())
+            except BaseException as e:  # noqa
+                res[who] = ('exc', repr(e))
+            finally:
+                sys.settrace(None)
+                reached[who].set()
+        return run
+
+    ta = threading.Thread(target=body('a', fn_a, ka), daemon=True)
+    tb = threading.Thread(target=body('b', fn_b, kb), daemon=True)
+    ta.start()
+    reached['a'].wait(60)
+    tb.start()
+    reached['b'].wait(patience if ta.is_alive() else 60)     # B blocked on a lock held by the paused A: A goes on
+    resume['a'].set()
+    ta.join(patience if tb.is_alive() else 60)
+    resume['b'].set()
+    ta.join(60)
+    tb.join(60)
+    return (res.get('a', ('exc', 'thread A did not finish')), res.get('b', ('exc', 'thread B did not finish')),
+            n['a'], n['b'])
